@@ -17,6 +17,7 @@ import (
 	"fmt"
 	"os"
 	"reflect"
+	"runtime"
 	"runtime/debug"
 	"sort"
 	"strings"
@@ -532,6 +533,60 @@ func scenarios(thorough bool) []scenario {
 			tr.do("String() while mocked", func() string { return t.Order{Sku: 9}.String() })
 		})
 	}
+
+	// ---- an argument whose String() calls the mocked function it is handed to ----
+	for mi, mock := range []string{"apply", "return"} {
+		mock := mock
+		add(fmt.Sprintf("Nested/self-%d-%s", mi, mock), func(tr *transcript) {
+			b := mocker.Create()
+			defer b.Reset()
+			if mock == "apply" {
+				// stateless and silent: rendering the argument (which only a logger does) calls it again
+				b.Func(t.Label).Apply(func(o fmt.Stringer) string {
+					if r, ok := o.(t.Rec); ok {
+						return fmt.Sprintf("mock-%d", r.N)
+					}
+					return "mock-?"
+				})
+			} else {
+				b.Func(t.Label).Return("fixed").When(t.Rec{N: 2}).Return("two")
+			}
+			tr.do("Label(Rec{1})", func() string { return t.Label(t.Rec{N: 1}) })
+			tr.do("Label(Rec{2})", func() string { return t.Label(t.Rec{N: 2}) })
+			tr.do("Label(Rec{101})", func() string { return t.Label(t.Rec{N: 101}) })
+		})
+	}
+
+	// ---- a callback that ends its goroutine (what t.FailNow / t.SkipNow do inside a mock) ----
+	add("Goexit/callback", func(tr *transcript) {
+		b := mocker.Create()
+		defer b.Reset()
+		b.Func(t.F).Apply(func(a int, s string) int {
+			if a == 1 {
+				runtime.Goexit()
+			}
+			return a + 5
+		})
+		for _, a := range []int{2, 1, 3} {
+			a := a
+			done := make(chan string, 1)
+			go func() {
+				returned := false
+				defer func() {
+					r := recover()
+					done <- fmt.Sprintf("returned=%v recovered=%v", returned, r != nil)
+				}()
+				_ = t.F(a, "x")
+				returned = true
+			}()
+			select {
+			case s := <-done:
+				tr.add("goroutine calling F(%d): %s", a, s)
+			case <-time.After(20 * time.Second):
+				tr.add("goroutine calling F(%d): no answer", a)
+			}
+		}
+	})
 
 	// ---- fixed-size byte arrays by value (digests, raw ids) next to a byte slice ----
 	idA := [16]byte{1, 2, 3, 4, 5, 6, 7, 8, 9, 10, 11, 12, 13, 14, 15, 16}
